@@ -88,11 +88,15 @@ ASSUMPTIONS = [
 FLOORS = {"quick": {"judged": 5500, "judged_levels": 380,
                     "judged_handlers": 1400, "judged_formats": 2800,
                     "judged_sequences": 1200, "second_calls": 4500,
-                    "reopen_checked": 1500, "close_checked": 400},
+                    "reopen_checked": 1500, "close_checked": 400,
+                    "factory_reopen_checked": 100,
+                    "foreign_handlers_checked": 300},
           "thorough": {"judged": 60000, "judged_levels": 380,
                        "judged_handlers": 15000, "judged_formats": 35000,
                        "judged_sequences": 14000, "second_calls": 50000,
-                       "reopen_checked": 20000, "close_checked": 4500}}
+                       "reopen_checked": 20000, "close_checked": 4500,
+                       "factory_reopen_checked": 1200,
+                       "foreign_handlers_checked": 3000}}
 HOOK_FLOORS = {"quick": {"addHandler": 7000, "handler_init": 3000,
                          "handler_close": 3000, "handler_reopen": 1500},
                "thorough": {"addHandler": 80000, "handler_init": 35000,
@@ -113,6 +117,18 @@ N_SEQUENCES = {"quick": 1500, "thorough": 20000}
 HKEYS = ("path", "level", "style", "arbitrary-fields", "format",
          "dateformat", "max-size", "old-files", "when", "interval", "delay",
          "encoding")
+
+# handler sections other than <logfile> (no file, no connection made when
+# the handler is built): they count for "one handler per handler section,
+# in order", level and formatter
+FOREIGN_KEYS = ("facility", "method", "url", "from", "to", "subject")
+FOREIGN = {
+    "syslog": ("SysLogHandler", "%(name)s %(message)s"),
+    "http-logger": ("HTTPHandler",
+                    "%(asctime)s %(levelname)s %(name)s %(message)s"),
+    "email-notifier": ("SMTPHandler",
+                       "%(asctime)s %(levelname)s %(name)s %(message)s"),
+}
 
 RECORDS = [
     {"name": "zcv.app", "level": 30, "pathname": "/srv/app/mod.py",
@@ -189,14 +205,19 @@ def render_text(case, casedir):
             if key in lg:
                 lines.append("  %s %s" % (key, lg[key].replace("$", "$$")))
         for h in lg["handlers"]:
-            lines.append("  <logfile>")
-            for key in HKEYS:
+            sect = h.get("kind", "logfile")
+            lines.append("  <%s>" % sect)
+            for key in HKEYS + FOREIGN_KEYS:
                 if key in h:
                     v = h[key]
                     if key == "path":
+                        if sect != "logfile":
+                            continue
                         v = real_path(v, casedir)
-                    lines.append("    %s %s" % (key, v.replace("$", "$$")))
-            lines.append("  </logfile>")
+                    for one in (v if isinstance(v, list) else [v]):
+                        lines.append("    %s %s" % (key,
+                                                    one.replace("$", "$$")))
+            lines.append("  </%s>" % sect)
         lines.append("</%s>" % lg["type"])
     return "\n".join(lines) + "\n"
 
@@ -217,16 +238,21 @@ def handler_expect(h):
             e["why"].append("level " + lv[0])
     else:
         e["level"] = reflog.HANDLER_LEVEL_DEFAULT
-    plan = reflog.handler_plan(h)
-    if plan[0] == "accept":
-        e["plan"] = plan[1]
+    foreign = h.get("kind", "logfile") != "logfile"
+    if foreign:
+        e["plan"] = {"cls": "foreign", "kind": h["kind"]}
     else:
-        verdicts.append(plan[0])
-        e["why"].append(plan[1])
+        plan = reflog.handler_plan(h)
+        if plan[0] == "accept":
+            e["plan"] = plan[1]
+        else:
+            verdicts.append(plan[0])
+            e["why"].append(plan[1])
     style = h.get("style", reflog.STYLE_DEFAULT).lower()
     arb = reflog.boolean(h["arbitrary-fields"]) \
         if "arbitrary-fields" in h else False
-    fmt = h.get("format", reflog.LOGFILE_FORMAT_DEFAULT)
+    fmt = h.get("format", FOREIGN[h["kind"]][1] if foreign
+                else reflog.LOGFILE_FORMAT_DEFAULT)
     e["style"], e["arbitrary"], e["format"] = style, arb, fmt
     e["dateformat"] = h.get("dateformat", reflog.DATEFORMAT_DEFAULT)
     if style not in reflog.STYLES or arb is None:
@@ -506,6 +532,9 @@ def case_shape(case):
                                         shape(st, h.get("format", ""))))
             else:
                 p = h["path"]
+                if h.get("kind", "logfile") != "logfile":
+                    hs.append("X" + h["kind"][:1])
+                    continue
                 hs.append("%s%s%s%s%s%s" % (
                     p if p in reflog.STD else "F",
                     "s" if "max-size" in h else "",
@@ -698,7 +727,32 @@ def check_handler(env, case, res, idx, h, hspec, he, casedir, fake_out,
     if h.level != he["level"]:
         bad["level"] = (he["level"], h.level)
     cls = plan["cls"]
-    if cls == "stream":
+    if cls == "foreign":
+        emit = False
+        want_name = FOREIGN[plan["kind"]][0]
+        if type(h).__name__ != want_name:
+            bad["class"] = (want_name, type(h).__module__ + "." +
+                            type(h).__name__)
+        elif plan["kind"] == "syslog":
+            import logging.handlers as lh
+            fac = hspec.get("facility", "user").lower()
+            if h.facility != lh.SysLogHandler.facility_names.get(fac) and \
+                    h.facility != fac:
+                bad["facility"] = (fac, h.facility)
+        elif plan["kind"] == "http-logger":
+            if h.method != hspec.get("method", "GET").upper():
+                bad["method"] = (hspec.get("method", "GET").upper(),
+                                 h.method)
+            if (h.host, h.url) != ("localhost", "/"):
+                bad["url"] = (("localhost", "/"), (h.host, h.url))
+        else:
+            got = (h.fromaddr, list(h.toaddrs), h.subject)
+            want = (hspec["from"], list(hspec["to"]),
+                    hspec.get("subject", "Message from Zope"))
+            if got != want:
+                bad["mail"] = (want, got)
+        res.count("foreign_handlers_checked")
+    elif cls == "stream":
         fake = fake_out if plan["stream"] == "stdout" else fake_err
         if not isinstance(h, logging.StreamHandler) or \
                 isinstance(h, logging.FileHandler):
@@ -972,6 +1026,8 @@ def _seq_body(env, case, res, text, casedir, gc_inside):
         elif op[0] == "drop":
             seq_drop(env, res, st, op[1], step, gc_inside,
                      bool(case.get("cyclic")))
+        elif op[0] == "freopen":
+            seq_factory_reopen(env, res, st, op[1], casedir, step)
     res.sig("seq|%s|%s%s|%s" % ("".join(seq_letter(o) for o in case["ops"]),
                                 "gcin" if gc_inside else "gc",
                                 case.get("drop_mode", "forget")[:7]
@@ -985,7 +1041,8 @@ def _seq_body(env, case, res, text, casedir, gc_inside):
 
 
 def seq_letter(op):
-    return {"call": "C", "reopen": "R", "close": "X", "drop": "D"}[op[0]] + \
+    return {"call": "C", "reopen": "R", "close": "X", "drop": "D",
+            "freopen": "F"}[op[0]] + \
         (str(op[1]) if len(op) > 1 else "")
 
 
@@ -1100,6 +1157,67 @@ def seq_reopen(env, res, st, casedir, step, gc_inside):
                         detail="step %d serial %d" % (step, s),
                         vsig="reopen-old-open")
         seq_emit_probe(env, res, st, s, step)
+
+
+def seq_factory_reopen(env, res, st, k, casedir, step):
+    """factory.reopen(): the file handlers attached to this factory's logger
+    are reopened, in order, and no others; other handler kinds are left
+    alone.  (reopen() instantiates the logger if that has not happened.)"""
+    mon = env.mon
+    case = st.case
+    f = st.factories[k]
+    if f is None or st.closed:
+        # closed handlers that are still attached: not pinned by the statement
+        res.count("seq_noop")
+        st.trace.append("factory-reopen %d: skipped" % k)
+        return
+    if not st.created[k]:
+        seq_call(env, res, st, k, casedir, step)
+    lg = logging.getLogger(case["loggers"][k]["name"])
+    attached = [mon.serial_of(h) for h in lg.handlers
+                if mon.serial_of(h) is not None]
+    pre = _streams_of_alive(mon, attached)
+    lowest_want = None
+    mon.clear()
+    try:
+        f.reopen()
+        lowest = f.getLowestHandlerLevel()
+    except Exception as exc:  # noqa
+        res.violate("factory-reopen-raised", case, "no exception",
+                    exc_brief(exc), detail="step %d" % step,
+                    vsig="freopen-raised")
+        raise Abort()
+    touched = mon.serials("reopen")
+    added = mon.added(lg)
+    mon.clear()
+    st.trace.append("factory-reopen %d: attached %s, reopened %s"
+                    % (k, attached, touched))
+    if touched != attached or added:
+        res.violate("factory-reopen-wrong-handler-set", case,
+                    {"reopened": attached, "handlers_added": 0},
+                    {"reopened": touched, "handlers_added": len(added)},
+                    detail="step %d: file handlers attached to logger %d, "
+                    "in order; trace: %s" % (step, k, st.trace),
+                    vsig="freopen-set")
+        raise Abort()
+    res.count("factory_reopen_checked")
+    # the lowest level any of its handlers (or the logger) lets through
+    e = st.exp["loggers"][k]
+    levels = [lv for lv in [e["level"]] + [h["level"] for h in e["handlers"]]
+              if lv != logging.NOTSET]
+    lowest_want = min(levels) if levels else logging.NOTSET
+    if lowest != lowest_want:
+        res.violate("lowest-handler-level", case, lowest_want, lowest,
+                    detail="step %d logger %d" % (step, k),
+                    vsig="lowest-level")
+    for s_ in attached:
+        if pre.get(s_) is not None:
+            if not pre[s_].closed:
+                res.violate("reopenFiles-old-stream-open", case,
+                            "old stream closed", "still open",
+                            detail="factory.reopen step %d serial %d"
+                            % (step, s_), vsig="freopen-old-open")
+            seq_emit_probe(env, res, st, s_, step)
 
 
 def seq_emit_probe(env, res, st, serial, step):
@@ -1377,6 +1495,29 @@ def random_handler(rng, fileno, valid_bias=0.85):
     return h
 
 
+def random_foreign(rng):
+    kind = rng.choice(sorted(FOREIGN))
+    h = {"kind": kind, "path": "FOREIGN"}
+    if kind == "syslog" and rng.random() < 0.5:
+        h["facility"] = rng.choice(["daemon", "local3", "MAIL", "User"])
+    elif kind == "http-logger" and rng.random() < 0.5:
+        h["method"] = rng.choice(["GET", "POST", "post", "get"])
+    elif kind == "email-notifier":
+        h["from"] = "zcv@example.org"
+        h["to"] = ["a@example.org"] + (["b@example.org"]
+                                       if rng.random() < 0.5 else [])
+        if rng.random() < 0.5:
+            h["subject"] = "zcv subject %d" % rng.randint(0, 9)
+    if rng.random() < 0.6:
+        h["level"] = random_level(rng)
+    sf = rng.choice(SANE_FORMATS)
+    if sf:
+        h["style"], h["format"] = sf
+    if rng.random() < 0.3:
+        h["dateformat"] = rng.choice(DATEFORMATS[1:])
+    return h
+
+
 def random_level(rng):
     r = rng.random()
     if r < 0.6:
@@ -1397,6 +1538,8 @@ def random_config(rng, i):
         for _ in range(nh):
             fileno += 1
             hs.append(random_handler(rng, fileno))
+        while rng.random() < 0.3 and len(hs) < 4:
+            hs.insert(rng.randrange(len(hs) + 1), random_foreign(rng))
         name = "zcvr%d_%d" % (i, j)
         if rng.random() < 0.3:
             name += ".sub" + rng.choice(["", ".leaf"])
@@ -1712,8 +1855,10 @@ def random_sequence(rng, i):
             k = rng.choice(live) if live and rng.random() < 0.9 \
                 else rng.randrange(nlog)
             ops.append(["call", k])
-        elif r < 0.65:
+        elif r < 0.56:
             ops.append(["reopen"])
+        elif r < 0.65:
+            ops.append(["freopen", rng.randrange(nlog)])
         elif r < 0.8:
             ops.append(["close"])
         else:
